@@ -150,8 +150,8 @@ PLANS = {
   'level': 'exploration',
   'steps': [{'engine': 'e4_api', 'variant': 'V', 'args': ['--mode=lattice'], 'shards': 8}],
   'eval_stats': ['lattice_cases', 'twin_pairs'], 'distinct_key': 'case',
-  'rule': "argument-lattice enumeration over the 70 catalogued isal_ entry points (isal_crypto_get_version* take no checked arguments): all 2^k subsets of the k pointer arguments set to NULL x (all scalars valid, then each boundary value of each scalar in turn: lengths 0/1/15/16/17/MAX+1, tag lengths 0/4/8/12/15/16/17, window 0/1/48/49/2^32-1, flags 0..4/0x10/0xFF, XTS lengths 0/1/15/16/17/2^24-1/2^24 (accepted, compared with the legacy twin)/2^24+1/2^40); expectation from a transcription of the header documentation, three-valued (must-succeed / must-fail / contract-silent); in must-fail cases every non-NULL pointer argument is aimed at a PROT_NONE region so that any dereference before the refusal faults (a submit with invalid flags is refused through its context, which is therefore real); stateful entries are prepared with valid internal calls; plus legacy/isal_ twin pairs on identical valid inputs with byte-wise comparison of all outputs",
-  'bound': {'quick': 'full lattice (exhaustive), 6 length classes for twins', 'thorough': 'same'},
+  'rule': "argument-lattice enumeration over the 70 catalogued isal_ entry points (isal_crypto_get_version* take no checked arguments): all 2^k subsets of the k pointer arguments set to NULL x (all scalars valid, then each value of each scalar's enumerated domain in turn: GCM lengths 0/1/17/64/MAX+1, tag lengths 0..40 (valid exactly 8/12/16) + 2^32+16 + 2^64-1, CBC lengths 0..70, rolling window 0..80 (valid 1..48) + 2^31/2^32-1, hash flags 0..40 + every higher single bit, XTS lengths 0..33/2^24-1/2^24 (accepted, compared with the legacy twin)/2^24+1/2^40); expectation from a transcription of the header documentation, three-valued (must-succeed / must-fail / contract-silent); in must-fail cases every non-NULL pointer argument is aimed at a PROT_NONE region so that any dereference before the refusal faults (a submit with invalid flags is refused through its context, which is therefore real: an idle mid-stream context, the manager slots bound to every CPU family in turn, manager and context images compared around the refused call); stateful entries are prepared with valid internal calls; plus legacy/isal_ twin pairs on identical valid inputs with byte-wise comparison of all outputs",
+  'bound': {'quick': 'full lattice (exhaustive, ~1.0e5 cases), 6 length classes for twins', 'thorough': 'same'},
   'deadline': {'quick': 120, 'thorough': 600}, 'assumptions': A_COMMON + ["the documented domain is transcribed by hand from include/*.h; where the headers are silent (e.g. NULL data pointer with length 0, tag length 4) either outcome is accepted"],
  },
  'C13': {
@@ -159,7 +159,7 @@ PLANS = {
   'steps': [{'engine': 'e4_api', 'variant': 'VF', 'args': ['--mode=fips'], 'shards': 16},
             {'engine': 'e4_api', 'variant': 'VF', 'args': ['--mode=latch', '--latch-max-threads=2'], 'shards': 9}],
   'eval_stats': ['transitions'], 'distinct_key': 'histories', 'state_stats': ['states'], 'transition_stats': ['transitions'],
-  'rule': "FIPS_MODE build with the self-test bodies redirected (objcopy --redefine-sym on a private copy of self_tests.o) to shims that count entries and return scripted outcomes whose failure values are calibrated from the genuine _aes_self_tests/_sha_self_tests run over a deliberately mis-bound primitive; explored: initial latch state {not run, passed, failed via asm_set_self_tests_status(1), failed via AES outcome, failed via SHA outcome} x outcome sequences of length 2 over {pass, AES fails, SHA fails} x first call e1 in all 70 catalogued entry points with valid arguments x second call e2 (quick: every 6th, rotating; thorough: all 70); oracle: 3-state reference machine - approved entry refused with ISAL_CRYPTO_ERR_SELF_TEST and outputs bytewise untouched whenever the self-tests have failed or fail now, self-tests entered exactly once by the first approved call and never again, 0 after a pass, non-approved entries always ISAL_CRYPTO_ERR_FIPS_INVALID_ALGO, all eight XTS entries refuse key1 == key2 (raw and expanded) in every latch state; plus the two-thread interleaving exploration of C17 (a caller that waits for another thread's failing self-tests must be refused as well)",
+  'rule': "FIPS_MODE build with the self-test bodies redirected (objcopy --redefine-sym on a private copy of self_tests.o) to shims that count entries and return scripted outcomes whose failure values are calibrated from the genuine _aes_self_tests/_sha_self_tests run over a deliberately mis-bound primitive; plus a sensitivity step on the genuine self-tests (each of the 44 dispatch slots of approved algorithms re-pointed to a saboteur that corrupts the bound function's output: if the class self-test calls it, it must fail and isal_self_tests must latch the failure); explored: initial latch state {not run, passed, failed via asm_set_self_tests_status(1), failed via AES outcome, failed via SHA outcome} x outcome sequences of length 2 over {pass, AES fails, SHA fails} x first call e1 in all 70 catalogued entry points with valid arguments x second call e2 (quick: every 6th, rotating; thorough: all 70); oracle: 3-state reference machine - approved entry refused with ISAL_CRYPTO_ERR_SELF_TEST and outputs bytewise untouched whenever the self-tests have failed or fail now, self-tests entered exactly once by the first approved call and never again, 0 after a pass, non-approved entries always ISAL_CRYPTO_ERR_FIPS_INVALID_ALGO, all eight XTS entries refuse key1 == key2 (raw and expanded) in every latch state; plus the two-thread interleaving exploration of C17 (a caller that waits for another thread's failing self-tests must be refused as well)",
   'bound': {'quick': 'two-step histories with a rotating 1/6 subset of second calls', 'thorough': 'all two-step histories'},
   'deadline': {'quick': 200, 'thorough': 1500}, 'assumptions': A_COMMON + ["the self-test bodies are replaced by shims (what is verified is the latch and the gates, not the known-answer tests themselves)"],
  },
